@@ -467,6 +467,10 @@ def gen_reshape(rng: Rng) -> tuple[GB, dict]:
     back = rng.chance(0.75)
     if sym == "none":
         tgt = [a, b, c] if back else [b, a, c]
+        if rng.chance(0.2):
+            # allowzero=0: a zero entry copies the extent of the OPERAND (a, b*c), not of the source
+            tgt = [0, b, c] if back else [0, -1]
+            desc["guards"].append("zero_copy_target")
         shp = gb.const(np.asarray(tgt, dtype=np.int64))
     elif sym == "one":
         tgt = [-1, b, c] if back else [-1, c, b]
